@@ -113,6 +113,11 @@ func dmHandler() {
 	if os.Getenv(dmEnvDie) == "1" {
 		os.Exit(3) // a daemon that fails during start-up: Launch must report an error
 	}
+	if os.Getenv(dmEnvDetach) == "1" || pid%3 == 0 {
+		// a daemon that logs while it starts up, BEFORE Done(): what it writes is not a failure of the launch
+		fmt.Fprintln(os.Stderr, "daemon", pid, "starting up")
+		fmt.Fprintln(os.Stdout, "daemon", pid, "says hello")
+	}
 	if os.Getenv(dmEnvDetach) == "1" {
 		syscall.Setsid() // own session and process group: a Ctrl-C on the caller's terminal no longer reaches the daemon
 	}
